@@ -867,11 +867,33 @@ def written_packets(path, P, db):
     return out
 
 
-def needed_fields(P, db, ci, v):
+def needed_fields(P, db, ci, v, S=None, obj=None, fields=None):
     from .fold import ClassVal
     cv = ClassVal(ci)
     _, wr = P.custom_codec(ci)
     need = set()
+    if wr is not None and S is not None and obj is not None:
+        # a hand-written writer: the attributes of the packet it reads on
+        # the paths that the fields already known (constants) and the
+        # version allow
+        from .pathsum import path_terms
+        heap = {(obj, k): val for k, val in (fields or {}).items()}
+        holds_cache = {}
+        try:
+            paths = S.run(wr, self_term=obj, heap=heap)
+        except AnalysisError:
+            paths = None
+        if paths is not None:
+            for p in paths:
+                key = id(p)
+                if not path_versions(P, p)(v):
+                    continue
+                for t in path_terms(p):
+                    if t[0] == 'attr' and t[1] == obj and \
+                            t[2] != 'context' and db.find_attr(
+                                ci, t[2]) is None:
+                        need.add(t[2])
+            return need
     if wr is None:
         d = P.definition(cv, v)
         if isinstance(d, list):
@@ -905,7 +927,7 @@ def field_completeness_ps(report, rid, db, P, S, fi, paths=None):
                 if not holds(v):
                     continue
                 rec['nv'].add(v)
-                for f in needed_fields(P, db, ci, v):
+                for f in needed_fields(P, db, ci, v, S, o, fields):
                     if f in fields or db.find_attr(ci, f) is not None:
                         continue
                     rec['missing'].setdefault(f, set()).add(v)
